@@ -46,6 +46,12 @@ pub fn c13_pins() -> Vec<(&'static str, &'static str)> {
     vec![
         ("continue_in_switch_in_dowhile", "unsigned char a, c; void main() { c = 2; do { c--; switch (a) { case 1: continue; } a++; } while (c); }"),
         ("goto_undefined_label", "unsigned char a; void main() { a = 1; goto nowhere; }"),
+        ("goto_undefined_label_in_do_while", "unsigned char a; void main() { failed: a = 1; do { a++; if (a == 3) goto fail; } while (a < 5); }"),
+        ("goto_undefined_label_in_for", "unsigned char a, i; void main() { for (i = 0; i != 3; i++) { if (a) goto fail; a++; } }"),
+        ("goto_undefined_label_in_while", "unsigned char a; void main() { while (a < 3) { a++; if (a == 2) goto fail; } }"),
+        ("goto_undefined_label_in_else", "unsigned char a; void main() { if (a) a = 1; else goto fail; }"),
+        ("goto_undefined_label_in_switch", "unsigned char a; void main() { switch (a) { case 1: a = 2; break; default: goto fail; } }"),
+        ("goto_into_do_while", "unsigned char a; void main() { if (a == 9) goto inside; do { a++; inside: a++; } while (a < 5); }"),
         ("goto_label_named_in_asm_text_only", "unsigned char i; void main() { asm(\"loop: DEC i\", 2); if (i) goto loop; }"),
         ("goto_label_as_substring_of_asm_text", "unsigned char i; void main() { asm(\"LDA #1 ; see .done below\", 2); asm(\"STA i ;xdone\", 2); goto done; }"),
         ("duplicate_user_label", "unsigned char x, y; void main() { l1: x = 1; l1: y = 2; if (x) goto l1; }"),
